@@ -50,6 +50,19 @@ fn source(variant: u32) -> MemSource {
     MemSource::new(entries)
 }
 
+/// chunk size of the `big*` repositories and their single file of `> MAX_COUNT` pairwise different chunks
+const BIG_CHUNK: usize = 64;
+fn big_source() -> MemSource {
+    let n = rustic_core::verif::indexer::MAX_COUNT + 150;
+    let mut content = Vec::with_capacity(n * BIG_CHUNK);
+    for i in 0..n {
+        let mut chunk = [0u8; BIG_CHUNK];
+        chunk[..8].copy_from_slice(&(i as u64).to_le_bytes());
+        content.extend_from_slice(&chunk);
+    }
+    MemSource::new(vec![SrcEntry::file(&[b"big"], &content), SrcEntry::file(&[b"small"], b"a small file")])
+}
+
 fn do_backup(h: &RepoHandle, src: &MemSource, dry: bool) -> RusticResult<SnapshotFile> {
     do_backup_on(h.open_oc()?, src, dry)
 }
@@ -208,11 +221,34 @@ fn run_cmd(cx: &mut Ctx, cmd: &str) -> Option<String> {
             res_str(&r)
         }
         "prune" => {
+            // every option of `PruneOptions` has a flag (unknown flag = bad-op)
             let mut po = PruneOptions::default();
-            po.instant_delete = has("instant");
-            po.repack_all = has("all");
             po.keep_delete = jiff::Span::new();
+            for f in &parts[1..] {
+                match *f {
+                    "instant" => po.instant_delete = true,
+                    "early" => po.early_delete_index = true,
+                    "all" => po.repack_all = true,
+                    "fast" => po.fast_repack = true,
+                    "uncomp" => po.repack_uncompressed = true,
+                    "cacheable" => po.repack_cacheable_only = Some(true),
+                    "noresize" => po.no_resize = true,
+                    "unused0" => po.max_unused = rustic_core::LimitOption::Size(bytesize::ByteSize(0)),
+                    "repackunl" => po.max_repack = rustic_core::LimitOption::Unlimited,
+                    "keepdel" => po.keep_delete = jiff::Span::new().hours(24),
+                    "keeppack" => po.keep_pack = jiff::Span::new().hours(24),
+                    "ignore" => {}
+                    _ => return None,
+                }
+            }
+            let ignore = has("ignore");
             let r = open().and_then(|r| r.to_indexed_ids()).and_then(|repo| {
+                if ignore {
+                    // `ignore_snaps`: the oldest snapshot does not keep its blobs alive
+                    let mut snaps = repo.get_all_snapshots()?;
+                    snaps.sort();
+                    po.ignore_snaps = snaps.iter().take(1).map(|s| s.id).collect();
+                }
                 let plan = repo.prune_plan(&po)?;
                 repo.prune(&po, plan)
             });
@@ -413,9 +449,29 @@ fn data_packs(h: &RepoHandle) -> RusticResult<Vec<rustic_core::Id>> {
 /// two backups on a fresh repository (`hot`: a hot/cold pair), then the damage
 fn setup(hot: bool, damage: &str) -> Result<Ctx, String> {
     let hot_be = hot.then(|| MemBackend::named("hot"));
-    let (h, _) = RepoHandle::init_oc(MemBackend::named("cold"), hot_be, &ConfigOptions::default()).map_err(|e| format!("{}@setup", errkind(&e)))?;
-    do_backup(&h, &source(1), false).map_err(|e| format!("{}@setup", errkind(&e)))?;
-    do_backup(&h, &source(2), false).map_err(|e| format!("{}@setup", errkind(&e)))?;
+    let big = damage.starts_with("big");
+    let cfg = if big {
+        // tiny fixed-size chunks: many blobs from little data (more than the indexer holds before it saves on its own)
+        ConfigOptions::default()
+            .set_chunker(rustic_core::repofile::Chunker::FixedSize)
+            .set_chunk_size(bytesize::ByteSize(BIG_CHUNK as u64))
+            .set_compression(0)
+            .set_extra_verify(false)
+    } else {
+        ConfigOptions::default()
+    };
+    let (h, _) = RepoHandle::init_oc(MemBackend::named("cold"), hot_be, &cfg).map_err(|e| format!("{}@setup", errkind(&e)))?;
+    if big {
+        do_backup(&h, &big_source(), false).map_err(|e| format!("{}@setup-big", errkind(&e)))?;
+        let blobs = h.open_oc().and_then(|r| r.infos_index()).map_err(|e| format!("{}@setup-big", errkind(&e)))?;
+        let n: u64 = blobs.blobs.iter().map(|b| b.count).sum();
+        if n < rustic_core::verif::indexer::MAX_COUNT as u64 {
+            return Err(format!("setup-big-too-few-blobs-{n}"));
+        }
+    } else {
+        do_backup(&h, &source(1), false).map_err(|e| format!("{}@setup", errkind(&e)))?;
+        do_backup(&h, &source(2), false).map_err(|e| format!("{}@setup", errkind(&e)))?;
+    }
     let both = |f: &dyn Fn(&MemBackend)| {
         f(&h.be);
         if let Some(x) = &h.hot {
@@ -444,6 +500,29 @@ fn setup(hot: bool, damage: &str) -> Result<Ctx, String> {
                 h.be.del_raw(FileType::Pack, &id);
             }
             h.open_oc().and_then(|repo| repo.repair_index(&RepairIndexOptions::default(), false)).map_err(|e| format!("{}@setup-dmg", errkind(&e)))?;
+        }
+        "big" => {}
+        "bigindex" => {
+            // every index file is lost: `repair index` re-reads every pack header
+            for id in h.be.ids(FileType::Index) {
+                both(&|b| b.del_raw(FileType::Index, &id));
+            }
+        }
+        "orph" => {
+            // an interrupted third backup: its packs are stored, its index file(s) and snapshot are not — pack files that
+            // no index file lists ("unindexed" / orphan packs)
+            let idx0: BTreeSet<_> = h.be.ids(FileType::Index).into_iter().collect();
+            let packs0: BTreeSet<_> = h.be.ids(FileType::Pack).into_iter().collect();
+            let sn = do_backup(&h, &source(3), false).map_err(|e| format!("{}@setup-orph", errkind(&e)))?;
+            for id in h.be.ids(FileType::Index) {
+                if !idx0.contains(&id) {
+                    both(&|b| b.del_raw(FileType::Index, &id));
+                }
+            }
+            both(&|b| b.del_raw(FileType::Snapshot, &sn.id));
+            if h.be.ids(FileType::Pack).into_iter().filter(|id| !packs0.contains(id)).count() < 2 {
+                return Err("setup-orph-no-orphan-packs".into());
+            }
         }
         "hcmiss" => {
             let hot = h.hot.as_ref().ok_or("bad-op")?;
@@ -481,14 +560,17 @@ fn drop_kinds(k: &str, drop: &[&str]) -> String {
 }
 
 fn exec_ao(setup_kind: &str, seq: &str, one_handle: bool) -> String {
-    let (hot, damaged) = match setup_kind {
-        "plain" => (false, false),
-        "hc" => (true, false),
-        "dmg" => (false, true),
-        "hcdmg" => (true, true),
+    let (hot, damaged, dmg) = match setup_kind {
+        "plain" => (false, false, "none"),
+        "hc" => (true, false, "none"),
+        "dmg" => (false, true, "dmg"),
+        "hcdmg" => (true, true, "dmg"),
+        // orphan packs (in no index file) next to the two snapshots: exact observation, like plain / hc
+        "orph" => (false, false, "orph"),
+        "hcorph" => (true, false, "orph"),
         _ => return "bad-op".into(),
     };
-    let mut cx = match setup(hot, if damaged { "dmg" } else { "none" }) {
+    let mut cx = match setup(hot, dmg) {
         Ok(c) => c,
         Err(e) => return e,
     };
@@ -564,6 +646,8 @@ fn exec_dry(damage: &str, cmd: &str, twin: bool) -> String {
         "hcmiss" | "hcmissp" => (true, damage),
         "hcpack" => (true, "pack"),
         "hcindex" => (true, "index"),
+        "hcbig" => (true, "big"),
+        "hcbigindex" => (true, "bigindex"),
         d => (false, d),
     };
     let mut cx = match setup(hot, dmg) {
@@ -608,7 +692,11 @@ pub fn exec(toks: &[&str]) -> String {
     })
 }
 
-pub const AO_CMDS: [&str; 44] = [
+pub const AO_CMDS: [&str; 54] = [
+    // prune with every option of `PruneOptions` (instant_delete, early_delete_index, repack_all, fast_repack, repack_uncompressed,
+    // repack_cacheable_only, no_resize, max_unused, max_repack, keep_delete, keep_pack; `ignore_snaps`: PRUNE_AO_ONLY)
+    "prune.early", "prune.instant.early", "prune.instant.all", "prune.fast", "prune.uncomp", "prune.cacheable", "prune.noresize",
+    "prune.unused0.repackunl", "prune.keepdel.keeppack", "prune.instant.early.all.unused0",
     "backup.new", "backup.same", "backup.dry.new", "forget", "prune", "prune.instant", "prune.all", "prune_plan", "repair_index",
     "repair_index.dry", "repair_index.readall", "repair_snap.delete", "repair_snap.delete.dry", "repair_snap.keep", "repair_snap.keep.dry",
     "rewrite.forget", "rewrite.forget.dry", "rewrite.keep", "rewrite.keep.dry", "rewtrees.forget", "rewtrees.keep", "rewtrees.keep.dry",
@@ -618,6 +706,13 @@ pub const AO_CMDS: [&str; 44] = [
     "merge", "merge.delete", "rewtrees.forget.excl", "rewtrees.keep.excl", "rewtrees.forget.excl.dry", "rewtrees.keep.excl.dry", "readonly",
     "restore.plan", "restore.plan.dry", "init", "init_hot", "hotcold.dry", "hotcold.packs", "key.del",
 ];
+/// every prune token (the first 13 are also in AO_CMDS)
+pub const PRUNE_CMDS: [&str; 14] = [
+    "prune", "prune.instant", "prune.all", "prune.early", "prune.instant.early", "prune.instant.all", "prune.fast", "prune.uncomp",
+    "prune.cacheable", "prune.noresize", "prune.unused0.repackunl", "prune.keepdel.keeppack", "prune.instant.early.all.unused0",
+    // `ignore_snaps` makes a snapshot's blobs unused: only run where the repository is (still) append-only
+    "prune.instant.ignore",
+];
 /// expensive (scrypt) or state-resetting tokens: chosen rarely
 pub const RARE_CMDS: [&str; 2] = ["key.add", "reinit"];
 pub const DRY_CMDS: [&str; 8] = [
@@ -625,7 +720,9 @@ pub const DRY_CMDS: [&str; 8] = [
     "rewrite.forget.dry", "rewtrees.forget.dry",
 ];
 /// every dry-run flag on a repository where the non-dry twin has work to do: (damage, dry command)
-pub const DRY_TWINS: [(&str, &str); 36] = [
+pub const DRY_TWINS: [(&str, &str); 39] = [
+    // more blobs than the indexer holds before it saves an index file on its own (`Indexer::add_with`: MAX_COUNT)
+    ("big", "repair_index.readall.dry"), ("bigindex", "repair_index.dry"), ("hcbigindex", "repair_index.readall.dry"),
     ("none", "backup.dry.new"), ("none", "backup.dry.same"), ("none", "rewrite.forget.dry"), ("none", "rewrite.keep.dry"),
     ("none", "rewtrees.forget.dry"), ("none", "rewtrees.keep.dry"), ("none", "rewtrees.forget.excl.dry"), ("none", "rewtrees.keep.excl.dry"),
     ("none", "restore.plan.dry"),
@@ -682,10 +779,31 @@ pub fn generate(thorough: bool, rng: &mut Rng, ops: &mut Vec<String>, stats: &mu
             stats.hit(format!("op.hnd-accepted.{setup}"));
         }
     }
+    // repositories holding pack files that no index file lists (an interrupted backup): every prune option on the append-only
+    // repository (refused, nothing removed — in particular not the unindexed packs), after a rejected config change on one
+    // handle, and the allowed / re-armed paths
+    for setup in ["orph", "hcorph"] {
+        for (i, c) in PRUNE_CMDS.iter().enumerate() {
+            ops.push(format!("c15 aox {setup} {c}"));
+            ops.push(format!("c15 hnd {setup} config.ao0.{},{c},{}", REJECTED_OPTS[i % 9], rng.pick(&PRUNE_CMDS)));
+            if !c.contains("ignore") && (thorough || setup == "orph" || i % 3 == 0) {
+                ops.push(format!("c15 aox {setup} config.ao0,{c}"));
+                ops.push(format!("c15 aox {setup} config.ao0,config.ao1,{c},prune.instant"));
+            }
+            stats.hit(format!("op.orphan-packs-prune.{setup}"));
+        }
+        for c in ["repair_index", "repair_index.dry", "repair_index.readall.dry", "repair_snap.delete", "forget", "check", "prune_plan", "hotcold.packs"] {
+            ops.push(format!("c15 aox {setup} {c},prune.instant.early"));
+            stats.hit(format!("op.orphan-packs-other.{setup}"));
+        }
+    }
+    for setup in ["plain", "hc", "dmg", "hcdmg"] {
+        ops.push(format!("c15 aox {setup} prune.instant.ignore,{}", rng.pick(&PRUNE_CMDS)));
+    }
     // random one-handle histories: runs of config changes (accepted, refused by the guard, rejected by validation), each
     // followed by a command on the same handle
     for i in 0..(if thorough { 1500 } else { 120 }) {
-        let setup = ["plain", "plain", "hc", "dmg", "plain", "hcdmg"][i % 6];
+        let setup = ["plain", "orph", "hc", "dmg", "plain", "hcdmg", "plain", "hcorph", "hc", "dmg", "plain", "hcdmg"][i % 12];
         let mut seq: Vec<String> = Vec::new();
         let mut forgets = 0;
         for _ in 0..rng.range(1, 4) {
@@ -728,10 +846,12 @@ pub fn generate(thorough: bool, rng: &mut Rng, ops: &mut Vec<String>, stats: &mu
     // random sequences; append-only is switched off (and on again) inside some of them
     let n = if thorough { 6000 } else { 520 };
     for i in 0..n {
-        let setup = match i % 8 {
-            0 | 1 | 2 | 3 => "plain",
-            4 | 5 => "hc",
-            6 => "dmg",
+        let setup = match i % 16 {
+            0 | 1 | 2 | 8 | 9 | 10 | 11 => "plain",
+            3 => "orph",
+            4 | 5 | 12 => "hc",
+            13 => "hcorph",
+            6 | 14 => "dmg",
             _ => "hcdmg",
         };
         let len = rng.range(2, 7);
@@ -765,6 +885,15 @@ pub fn generate(thorough: bool, rng: &mut Rng, ops: &mut Vec<String>, stats: &mu
         stats.hit(format!("op.ao-seq.{setup}"));
     }
     // every dry-run flag on intact and damaged repositories
+    // … on a repository with more blobs than one index file holds (the indexer saves on its own while packs are re-indexed)
+    ops.push("c15 dry big repair_index.dry".to_string());
+    stats.hit("op.dry-big");
+    if thorough {
+        for (d, c) in [("hcbig", "repair_index.readall.dry"), ("bigindex", "repair_index.readall.dry"), ("big", "backup.dry.new"), ("big", "repair_snap.delete.dry")] {
+            ops.push(format!("c15 dry {d} {c}"));
+            stats.hit("op.dry-big");
+        }
+    }
     for d in ["none", "index", "pack", "dmg", "hc", "hcdmg"] {
         for c in DRY_CMDS {
             ops.push(format!("c15 dry {d} {c}"));
